@@ -75,6 +75,10 @@ Definition py_json_translation_for_type (python_type : str) : option py_translat
   else None.
 Definition py_is_some {A} (o : option A) : bool := match o with Some _ => true | None => false end.
 
+(* python.rs:511 v.replace(DQ DQ DQ, BS DQ BS DQ BS DQ): three quotes inside the text would end the docstring early *)
+Definition py_escape_docstring (v : str) : str :=
+  replace_sub [ch_dq; ch_dq; ch_dq] [ch_bs; ch_dq; ch_bs; ch_dq; ch_bs; ch_dq] v.
+
 (* python.rs:494 write_comments *)
 Definition py_write_comments (is_docstring : bool) (comments : list str) (indent_level : nat) : str :=
   let indent := py_indent indent_level in
@@ -83,7 +87,7 @@ Definition py_write_comments (is_docstring : bool) (comments : list str) (indent
   | _ =>
     (if is_docstring then
        indent ++ lit """""""" ++ py_nl ++
-       join py_nl (map (fun v => indent ++ v) comments) ++ py_nl ++
+       join py_nl (map (fun v => indent ++ v) (map py_escape_docstring comments)) ++ py_nl ++
        indent ++ lit """"""""
      else join py_nl (map (fun v => indent ++ lit "# " ++ v) comments)) ++ py_nl
   end.
